@@ -74,6 +74,8 @@ def unint(s, *a):
         if s != s[0] * len(s) or len(s) != REG[k][1]:
             raise ValueError('placeholder cut in pieces: %r' % (s,))
         return REG[k][0]
+    if type(s).__name__ in ('SymInt', 'SymbolicInt', 'SymbolicBoundedInt'):
+        return s              # int() of an already symbolic integer is that integer (no concretisation)
     return int(s, *a)
 
 
